@@ -10,7 +10,7 @@ from .c08 import ws_variant
 
 NBATCH = {'quick': 16, 'thorough': 64}
 BUDGET_S = {'quick': 80, 'thorough': 180}
-PER_BATCH = {'quick': 150, 'thorough': 3000}
+PER_BATCH = {'quick': 300, 'thorough': 5000}
 FLOORS = {
     'quick': {'distinct_nontrivial': 1500, 'fork-trees': 1200, 'handles-finished': 8000, 'results-rechecked-after-later-operations': 40000,
               'accepts-observations': 8000, 'accepts==reference': 3000, 'resume-cases': 1500, 'on_error-cases': 800,
